@@ -1,7 +1,7 @@
 (* Property C08: reported bit counts equal the bits actually written.
    Statements only; proofs in Proofs/CountBits.v, Proofs/OpsLen.v. *)
 From FV Require Import Model.Base Model.Sink Model.Rice Model.Component
-  Proofs.OpsLen Proofs.CountBits Proofs.CountStream.
+  Model.Parser Proofs.OpsLen Proofs.CountBits Proofs.CountStream Proofs.ParseFrameCtor Proofs.ParsePrecomputed.
 Local Open Scope N_scope.
 
 (* Residual: any partition order, any parameters, any quotients (no bound on their size/sum) *)
@@ -59,3 +59,12 @@ Theorem C08_stream : forall (s : stream) (ops : list op),
   stream_ops s = Ok ops -> ops_len 0 ops = stream_count_bits s.
 Proof. exact stream_count_bits_correct. Qed.
 Print Assumptions C08_stream.
+
+(* "before and after the frame's bitstream has been precomputed", at stream level: frames that carry a stored bit
+   stream equal to their own serialisation (what precompute_bitstream establishes; every frame of the multi-threaded
+   encoder) report the same count as the same stream without stored bytes *)
+Theorem C08_precomputed_stream : forall s,
+  Forall (fun f => pre_coherent f /\ frame_canon (si_channels (s_info s)) (si_bps (s_info s)) (strip_frame f)) (s_frames s) ->
+  stream_count_bits s = stream_count_bits (strip_stream s).
+Proof. exact precomputed_stream_count_bits. Qed.
+Print Assumptions C08_precomputed_stream.
